@@ -10,6 +10,13 @@ Two parts:
     exported C functions `dnp3_database_*` and once through dnp3's native `Database` API on an
     identical second database; the oracle compares the `ffi` and `native` lines pairwise.
     There is no Coq model run for this engine (meta impl_only).
+  * configuration conversions (same engine, operation `cfg <kind> <field>=<value> ...`): the harness
+    fills the raw C struct of the binding (boundary values of every numeric field, distinct bit
+    patterns for the boolean masks), calls the REAL conversion (`convert_outstation_config`,
+    `TryFrom<ffi::AssociationConfig>`, ...) and prints the binding-side and the native-side field
+    values; the oracle checks every native field against its NAMESAKE binding field under the
+    documented reading of that field (table CFG_RULES below, derived from the doc strings of
+    ffi/dnp3-schema/src).
 
 The ffi engine lives in another test binary than the other engines, so this module carries its own
 build-and-run code and installs it in place of propcheck.run_cases for this property only."""
@@ -41,6 +48,298 @@ DEADBANDS = ["0000000000000000", "3ff0000000000000", "4014000000000000", "408f40
 FLAGS_POOL = [0, 1, 2, 0x41, 0x81, 0xff, 0x20, 0x10]
 TIME_POOL = [0, 1, 1234567890123, (1 << 48) - 1, 1 << 48, (1 << 64) - 1]
 DB_VALUES = ["Intermediate", "DeterminedOff", "DeterminedOn", "Indeterminate"]
+
+
+# ------------------------------------------------------------------------------------------------
+# configuration conversions: the documented reading of every field
+#
+# CFG_RULES[kind] = [(native field, binding field, rule, where the reading is documented)]
+# The native field must equal the image of its NAMESAKE binding field under `rule`
+# (binding fields whose name differs are the aliases the struct tables pin as well: address ->
+# master_address, max_double_bit_binary -> max_double_binary, startup_integrity_classes.classN ->
+# startup_integrity_classes.events.classN).  Rules (closed vocabulary, `cfg_expect`):
+#   id            the same number / bool / variant name
+#   ms            binding: count of milliseconds (DurationType::Milliseconds) -> native Duration, no loss
+#   some          native field is an Option that is ALWAYS Some(binding value): `none` is never produced
+#                 (the binding has no way to say "unlimited"; 0 is the limit 0)
+#   ms0none       milliseconds, 0 = feature disabled (None)
+#   s0none        binding: count of SECONDS (DurationType::Seconds), 0 = feature disabled (None)
+#   timeout       milliseconds, must be a dnp3::app::Timeout: 1 ms ..= 1 h, else ParamError::InvalidTimeout
+#   address       a link address that is not reserved (< 0xFFF0), else ParamError::InvalidDnp3Address
+#   buf>=N        at least N bytes, else ParamError::InvalidBufferSize
+#   none-is-none  enum whose variant `None` stands for the native Option::None, other variants by name
+#   sockaddr      text of a socket address, else ParamError::InvalidSocketAddress
+#   valid-flag-48 utc_timestamp: Some(lower 48 bits of value) when is_valid, else None
+#   clamp>=1 / timeout-saturating
+#                 what master/server.rs does to link_id_config (max(value,1); clamped into 1 ms ..= 1 h).
+#                 NOT documented by the schema (the field docs say nothing about 0 or a range): accepted
+#                 here so that the unchanged tree does not alarm, listed as `undocumented` in the evidence
+U16, U32, U64 = (1 << 16) - 1, (1 << 32) - 1, (1 << 64) - 1
+HOUR_MS = 3600 * 1000
+_EB = ["max_binary", "max_double_bit_binary", "max_binary_output_status", "max_counter", "max_frozen_counter",
+       "max_analog", "max_analog_output_status", "max_octet_string"]
+_CZ = ["binary", "double_bit_binary", "binary_output_status", "counter", "frozen_counter", "analog",
+       "analog_output_status", "octet_string"]
+_FEAT = ["self_address", "broadcast", "unsolicited", "respond_to_any_master"]
+_DL = [("application", ["Nothing", "Header", "ObjectHeaders", "ObjectValues"]), ("transport", ["Nothing", "Header", "Payload"]),
+       ("link", ["Nothing", "Header", "Payload"]), ("physical", ["Nothing", "Length", "Data"])]
+
+
+def _eb_rules(pre):
+    doc = "outstation.rs define_event_buffer_config: 'Maximum number of ... events'"
+    return [(pre + ("max_double_binary" if f == "max_double_bit_binary" else f), pre + f, "id", doc) for f in _EB]
+
+
+def _cz_rules(pre):
+    return [(pre + f, pre + f, "id", "outstation.rs define_class_zero_config: 'Include ... in Class 0 reads'") for f in _CZ]
+
+
+def _feat_rules(pre):
+    return [(pre + f, pre + f, "id", "outstation.rs define_outstation_features (bool -> Feature::Enabled/Disabled)") for f in _FEAT]
+
+
+def _dl_rules(pre):
+    return [(pre + f, pre + f, "id", "shared.rs decode_level: enum by variant name") for f, _ in _DL]
+
+
+CFG_RULES = {
+    "outstation": [
+        ("outstation_address", "outstation_address", "address", "outstation.rs: 'Link-layer outstation address'; dnp3 link/mod.rs: special addresses may not be used"),
+        ("master_address", "master_address", "address", "outstation.rs: 'Link-layer master address'"),
+    ] + _eb_rules("event_buffer_config.") + [
+        ("solicited_buffer_size", "solicited_buffer_size", "buf>=249", "outstation.rs: 'Must be at least 249 bytes'"),
+        ("unsolicited_buffer_size", "unsolicited_buffer_size", "buf>=249", "outstation.rs: 'Must be at least 249 bytes'"),
+        ("rx_buffer_size", "rx_buffer_size", "buf>=249", "outstation.rs: 'Must be at least 249 bytes'"),
+    ] + _dl_rules("decode_level.") + [
+        ("confirm_timeout", "confirm_timeout", "timeout", "outstation.rs: Milliseconds 'Confirmation timeout'; dnp3 app/timeout.rs: 1 ms ..= 1 h"),
+        ("select_timeout", "select_timeout", "timeout", "outstation.rs: Milliseconds 'Select timeout'"),
+    ] + _feat_rules("features.") + [
+        ("max_unsolicited_retries", "max_unsolicited_retries", "some", "outstation.rs: 'Maximum number of unsolicited retries' (u32, default u32::MAX)"),
+        ("unsolicited_retry_delay", "unsolicited_retry_delay", "ms", "outstation.rs: Milliseconds 'Delay to wait before retrying an unsolicited response'"),
+        ("keep_alive_timeout", "keep_alive_timeout", "ms0none", "outstation.rs: 'A value of zero means no automatic keep-alive will be sent.'"),
+        ("max_read_request_headers", "max_read_request_headers", "some", "outstation.rs: 'Maximum number of headers ...' (a minimum is enforced INSIDE the library, not by the conversion)"),
+        ("max_controls_per_request", "max_controls_per_request", "some", "outstation.rs: 'Maximum number of controls in a single request.' (0 = no control accepted; None = unlimited natively)"),
+    ] + _cz_rules("class_zero."),
+    "eventbuffer": _eb_rules(""),
+    "classzero": _cz_rules(""),
+    "features": _feat_rules(""),
+    "association": [
+        ("response_timeout", "response_timeout", "timeout", "master/mod.rs: Milliseconds 'Timeout for receiving a response on this association'"),
+    ] + [("%s.class%d" % (g, i), "%s.class%d" % (g, i), "id", "master/mod.rs: '%s'" % d)
+         for g, d in (("disable_unsol_classes", "Classes to disable unsolicited responses at startup"),
+                      ("enable_unsol_classes", "Classes to enable unsolicited responses at startup")) for i in (1, 2, 3)] + [
+        ("startup_integrity_classes.class0", "startup_integrity_classes.class0", "id", "master/mod.rs: 'Startup integrity classes ...'"),
+    ] + [("startup_integrity_classes.events.class%d" % i, "startup_integrity_classes.class%d" % i, "id",
+          "master/mod.rs: 'Startup integrity classes ...'") for i in (1, 2, 3)] + [
+        ("auto_time_sync", "auto_time_sync", "none-is-none", "master/mod.rs: auto_time_sync 'none' = 'Do not perform automatic time sync'"),
+        ("auto_tasks_retry_strategy.min_delay", "auto_tasks_retry_strategy.min_delay", "ms", "shared.rs: Milliseconds 'Minimum delay between two retries'"),
+        ("auto_tasks_retry_strategy.max_delay", "auto_tasks_retry_strategy.max_delay", "ms", "shared.rs: Milliseconds 'Maximum delay between two retries'"),
+        ("keep_alive_timeout", "keep_alive_timeout", "s0none", "master/mod.rs: Seconds, 'A value of zero means no automatic keep-alive.'"),
+        ("auto_integrity_scan_on_buffer_overflow", "auto_integrity_scan_on_buffer_overflow", "id", "master/mod.rs: bool"),
+    ] + [("event_scan_on_events_available.class%d" % i, "event_scan_on_events_available.class%d" % i, "id",
+          "master/mod.rs: 'Classes to automatically send reads when the IIN bit is asserted'") for i in (1, 2, 3)] + [
+        ("max_queued_user_requests", "max_queued_user_requests", "id", "master/mod.rs: 'maximum number of user requests ... that will be queued'"),
+    ],
+    "channel": [
+        ("master_address", "address", "address", "master/mod.rs: 'Local DNP3 data-link address'"),
+    ] + _dl_rules("decode_level.") + [
+        ("tx_buffer_size", "tx_buffer_size", "buf>=249", "master/mod.rs: 'Must be at least 249'"),
+        ("rx_buffer_size", "rx_buffer_size", "buf>=2048", "master/mod.rs: 'Must be at least 2048'"),
+    ],
+    "retry": [
+        ("min_delay", "min_delay", "ms", "shared.rs: Milliseconds 'Minimum delay between two retries'"),
+        ("max_delay", "max_delay", "ms", "shared.rs: Milliseconds 'Maximum delay between two retries'"),
+    ],
+    "connect": [
+        ("min_connect_delay", "min_connect_delay", "ms", "shared.rs: Milliseconds 'Minimum delay between two connection attempts ...'"),
+        ("max_connect_delay", "max_connect_delay", "ms", "shared.rs: Milliseconds 'Maximum delay between two connection attempts'"),
+        ("reconnect_delay", "reconnect_delay", "ms", "shared.rs: Milliseconds 'Delay before attempting a connection after a disconnect'"),
+    ],
+    "linkid": [
+        ("max_tasks", "max_tasks", "clamp>=1", "UNDOCUMENTED: master/server.rs schema says only 'Set the maximum number of simultaneous tasks ...'"),
+        ("timeout", "timeout", "timeout-saturating", "UNDOCUMENTED: master/server.rs schema says only 'Maximum time period to wait ...'"),
+        ("decode_level", "decode_level", "id", "master/server.rs: phys decode level by variant name"),
+    ],
+    "fileread": [
+        ("max_block_size", "max_block_size", "id", "file.rs: 'Maximum block size requested by the master ...'"),
+        ("max_file_size", "max_file_size", "id", "file.rs: 'Maximum file size accepted by the master' (u32 -> usize)"),
+    ],
+    "dirread": [
+        ("max_block_size", "max_block_size", "id", "file.rs"),
+        ("max_file_size", "max_file_size", "id", "file.rs (u32 -> usize)"),
+    ],
+    "utc": [("value", "value", "valid-flag-48", "master/mod.rs utc_timestamp: 'value is only valid if is_valid is true', "
+             "'Only the lower 48-bits are used in DNP3 timestamps'")],
+    "serial": [
+        ("baud_rate", "baud_rate", "id", "shared.rs serial_settings"), ("data_bits", "data_bits", "id", "shared.rs"),
+        ("flow_control", "flow_control", "id", "shared.rs"), ("parity", "parity", "id", "shared.rs"),
+        ("stop_bits", "stop_bits", "id", "shared.rs"),
+    ],
+    "udp": [
+        ("local_endpoint", "local_endpoint", "sockaddr", "outstation.rs outstation_udp_config"),
+        ("remote_endpoint", "remote_endpoint", "sockaddr", "outstation.rs outstation_udp_config"),
+        ("socket_mode", "socket_mode", "id", "outstation.rs"), ("link_read_mode", "link_read_mode", "id", "outstation.rs"),
+        ("retry_delay", "retry_delay", "timeout", "outstation.rs: Milliseconds retry delay; a dnp3::app::Timeout natively"),
+    ],
+}
+CFG_UNDOCUMENTED = [(k, r[0], r[2]) for k, rs in sorted(CFG_RULES.items()) for r in rs if r[3].startswith("UNDOCUMENTED")]
+
+# CFG_FIELDS[kind] = [(binding field, type)]: what the generator may put into each field
+#   ("addr",) ("buf", min) ("timeout",) ("u16", typical) ("u32", typical) ("u64", typical) ("bool",)
+#   ("enum", [variants]) ("sockaddr",)
+_SOCK_OK = ["127.0.0.1:20000", "0.0.0.0:0", "255.255.255.255:65535", "[::1]:20000", "10.1.2.3:1"]
+_SOCK_BAD = ["nonsense", "127.0.0.1", "127.0.0.1:65536", "256.0.0.1:1", "localhost:20000"]
+
+
+def _dl_fields(pre):
+    return [(pre + f, ("enum", vs)) for f, vs in _DL]
+
+
+CFG_FIELDS = {
+    "outstation": [("outstation_address", ("addr",)), ("master_address", ("addr",))]
+                  + [("event_buffer_config." + f, ("u16", 20 + i)) for i, f in enumerate(_EB)]
+                  + [("solicited_buffer_size", ("buf", 249)), ("unsolicited_buffer_size", ("buf", 249)), ("rx_buffer_size", ("buf", 249))]
+                  + _dl_fields("decode_level.")
+                  + [("confirm_timeout", ("timeout",)), ("select_timeout", ("timeout",))]
+                  + [("features." + f, ("bool",)) for f in _FEAT]
+                  + [("max_unsolicited_retries", ("u32", 3)), ("unsolicited_retry_delay", ("u64", 7000)),
+                     ("keep_alive_timeout", ("u64", 30000)), ("max_read_request_headers", ("u16", 32)),
+                     ("max_controls_per_request", ("u16", 10))]
+                  + [("class_zero." + f, ("bool",)) for f in _CZ],
+    "eventbuffer": [(f, ("u16", 20 + i)) for i, f in enumerate(_EB)],
+    "classzero": [(f, ("bool",)) for f in _CZ],
+    "features": [(f, ("bool",)) for f in _FEAT],
+    "association": [("response_timeout", ("timeout",))]
+                   + [("%s.class%d" % (g, i), ("bool",)) for g in ("disable_unsol_classes", "enable_unsol_classes") for i in (1, 2, 3)]
+                   + [("startup_integrity_classes.class%d" % i, ("bool",)) for i in (0, 1, 2, 3)]
+                   + [("auto_time_sync", ("enum", ["None", "Lan", "NonLan", "DirectWriteAbsTime"])),
+                      ("auto_tasks_retry_strategy.min_delay", ("u64", 1500)), ("auto_tasks_retry_strategy.max_delay", ("u64", 20000)),
+                      ("keep_alive_timeout", ("u64", 45)), ("auto_integrity_scan_on_buffer_overflow", ("bool",))]
+                   + [("event_scan_on_events_available.class%d" % i, ("bool",)) for i in (1, 2, 3)]
+                   + [("max_queued_user_requests", ("u16", 8))],
+    "channel": [("address", ("addr",))] + _dl_fields("decode_level.") + [("tx_buffer_size", ("buf", 249)), ("rx_buffer_size", ("buf", 2048))],
+    "retry": [("min_delay", ("u64", 250)), ("max_delay", ("u64", 30000))],
+    "connect": [("min_connect_delay", ("u64", 500)), ("max_connect_delay", ("u64", 60000)), ("reconnect_delay", ("u64", 2500))],
+    "linkid": [("max_tasks", ("u16", 4)), ("timeout", ("u64", 2500)), ("decode_level", ("enum", ["Nothing", "Length", "Data"]))],
+    "fileread": [("max_block_size", ("u16", 512)), ("max_file_size", ("u32", 100000))],
+    "dirread": [("max_block_size", ("u16", 256)), ("max_file_size", ("u32", 4096))],
+    "utc": [("value", ("u64", 1234567890123)), ("is_valid", ("bool",))],
+    "serial": [("baud_rate", ("u32", 19200)), ("data_bits", ("enum", ["Five", "Six", "Seven", "Eight"])),
+               ("flow_control", ("enum", ["None", "Software", "Hardware"])), ("parity", ("enum", ["None", "Odd", "Even"])),
+               ("stop_bits", ("enum", ["One", "Two"]))],
+    "udp": [("local_endpoint", ("sockaddr",)), ("remote_endpoint", ("sockaddr",)), ("socket_mode", ("enum", ["OneToOne", "OneToMany"])),
+            ("link_read_mode", ("enum", ["Stream", "Datagram"])), ("retry_delay", ("timeout",))],
+}
+# quick tier: (script, [(kind, valid sweeps, invalid probes)])
+CFG_QUICK = [
+    ("outstation", [("outstation", 6, 3)]),
+    ("association", [("association", 6, 2)]),
+    ("channel", [("channel", 5, 3), ("retry", 3, 0), ("connect", 3, 0), ("linkid", 3, 0)]),
+    ("misc", [("fileread", 2, 0), ("dirread", 2, 0), ("utc", 2, 0), ("serial", 2, 0), ("udp", 3, 2),
+              ("eventbuffer", 1, 0), ("classzero", 1, 0), ("features", 1, 0)]),
+]
+
+
+def cfg_pools(ty, rng):
+    """-> (valid pool [min, min+1, typical, max, random], invalid values)"""
+    t = ty[0]
+    if t == "addr":
+        return [0, 1, 1024, 0xFFEF, rng.below(0xFFF0)], [0xFFF0, 0xFFFC, 0xFFFF]
+    if t == "buf":
+        return [ty[1], ty[1] + 1, 4096, U16, rng.range(ty[1], U16)], [0, 1, ty[1] - 1]
+    if t == "timeout":
+        return [1, 2, 5000, HOUR_MS, rng.range(1, HOUR_MS)], [0, HOUR_MS + 1, U64]
+    if t in ("u16", "u32", "u64"):
+        top = {"u16": U16, "u32": U32, "u64": U64}[t]
+        return [0, 1, ty[1], top, rng.below(top + 1) if rng.chance(1, 2) else rng.below(100000) % (top + 1)], []
+    if t == "sockaddr":
+        return list(_SOCK_OK), list(_SOCK_BAD)
+    raise ValueError(t)
+
+
+def cfg_expect(rule, raw, ffi):
+    """image of the binding-side value `raw` (text, as printed by the harness) under `rule`:
+    ("ok", native text) or ("err", ParamError variant)"""
+    if rule in ("id", "ms", "some"):
+        return ("ok", raw)
+    if rule == "ms0none":
+        return ("ok", "none" if int(raw) == 0 else raw)
+    if rule == "s0none":
+        return ("ok", "none" if int(raw) == 0 else str(int(raw) * 1000))
+    if rule == "timeout":
+        return ("ok", raw) if 1 <= int(raw) <= HOUR_MS else ("err", "InvalidTimeout")
+    if rule == "timeout-saturating":
+        return ("ok", str(min(max(int(raw), 1), HOUR_MS)))
+    if rule == "clamp>=1":
+        return ("ok", str(max(int(raw), 1)))
+    if rule == "address":
+        return ("ok", raw) if int(raw) < 0xFFF0 else ("err", "InvalidDnp3Address")
+    if rule.startswith("buf>="):
+        return ("ok", raw) if int(raw) >= int(rule[5:]) else ("err", "InvalidBufferSize")
+    if rule == "none-is-none":
+        return ("ok", "none" if raw == "None" else raw)
+    if rule == "sockaddr":
+        return ("ok", raw) if raw in _SOCK_OK else ("err", "InvalidSocketAddress")
+    if rule == "valid-flag-48":
+        return ("ok", str(int(raw) & ((1 << 48) - 1)) if ffi.get("is_valid") == "1" else "none")
+    raise ValueError("rule %r" % rule)
+
+
+def cfg_fields_of(line, skip):
+    """`ffi cfg <kind> a=1 b=2` -> {a: 1, b: 2}"""
+    return dict(t.split("=", 1) for t in line.split(" ")[skip:] if "=" in t)
+
+
+def check_cfg(op_text, f, n):
+    """oracle of one `cfg` operation -> [(clause, description)]"""
+    toks = op_text.split()
+    kind, sent = toks[1], dict(t.split("=", 1) for t in toks[2:])
+    rules = CFG_RULES.get(kind)
+    if rules is None:
+        return [("harness|cfg-kind", "no rule table for configuration kind `%s`" % kind)]
+    ffi, nat = cfg_fields_of(f, 3), cfg_fields_of(n, 3)
+    for k, v in sent.items():
+        if ffi.get(k) != v:
+            return [("harness|cfg-echo", "`%s`: field %s was given as %s, the struct handed to the conversion holds %s" % (op_text[:120], k, v, ffi.get(k)))]
+    ret = nat.pop("ret", None)
+    want, errs = {}, {}
+    for nf, bf, rule, _doc in rules:
+        if bf not in ffi:
+            return [("harness|cfg-fields", "binding-side line of `cfg %s` has no field %s" % (kind, bf))]
+        r = cfg_expect(rule, ffi[bf], ffi)
+        if r[0] == "err":
+            errs.setdefault(r[1], []).append((bf, ffi[bf], rule))
+        else:
+            want[nf] = (r[1], bf, rule)
+    given = " ".join("%s=%s" % kv for kv in sorted(sent.items())) or "(all fields at their base value)"
+    if ret != "ok":
+        if ret in errs:
+            return []
+        if errs:
+            return [("cfg-error|%s|%s" % (kind, sorted(errs)[0]),
+                     "cfg %s %s: rejected with %s, the invalid field(s) %s call for %s"
+                     % (kind, given, ret, ", ".join("%s=%s" % (b, v) for e in sorted(errs) for b, v, _ in errs[e]), "/".join(sorted(errs))))]
+        return [("cfg-rejected|%s|%s" % (kind, ret),
+                 "cfg %s %s: every field is within its documented range, but the conversion failed with ParamError::%s" % (kind, given, ret))]
+    if errs:
+        e = sorted(errs)[0]
+        b, v, rule = errs[e][0]
+        return [("cfg-accepted|%s|%s" % (kind, b),
+                 "cfg %s %s: binding field %s=%s is outside its documented range (rule %s) and must be refused with ParamError::%s; "
+                 "the conversion accepted it (native %s=%s)" % (kind, given, b, v, rule, e, b, nat.get(b)))]
+    if set(nat) != set(want):
+        return [("harness|cfg-fields", "native-side line of `cfg %s` has fields %s, the rule table has %s"
+                 % (kind, sorted(set(nat) - set(want)), sorted(set(want) - set(nat))))]
+    out = []
+    for nf, bf, rule, doc in rules:
+        exp = want[nf][0]
+        if nat[nf] != exp:
+            other = [b for (x, b, r) in want.values() if x == nat[nf] and b != bf and exp != nat[nf]]
+            out.append(("cfg-field|%s|%s" % (kind, nf),
+                        "cfg %s: native field `%s` must be %s (its namesake binding field %s=%s read as `%s`: %s), the conversion produced %s%s; "
+                        "whole input: %s" % (kind, nf, exp, bf, ffi[bf], rule, doc, nat[nf],
+                                             " (the value of binding field %s)" % other[0] if len(other) == 1 else "", given)))
+    return out[:3]
 
 
 # ------------------------------------------------------------------------------------------------
@@ -146,6 +445,16 @@ def table_trace(tables, kind, name):
         L += ["pinned %s %s" % (p[0], p[1]) for p in t["pinned"]]
         L += ["deviation %s" % d[1] for d in tables["known_enum_deviations"] if d[0] == name]
         return L
+    if kind == "config":
+        t = next((t for t in tables.get("config_tables", []) if t["name"] == name), None)
+        if t is None:
+            return ["no-such-table"]
+        texts = dict(t["texts"])
+        L = ["where %s:%d" % (t["file"], t["line"]), "vocabulary " + " ".join(tables["wrapper_vocabulary"])]
+        L += ["row %s %s %s %s" % (r[0], q(r[1]), q(r[2]), q(texts.get(r[0], ""))) for r in t["rows"]]
+        L += ["alias %s %s" % (a[0], a[1]) for a in t["aliases"]]
+        L += ["pin %s %s" % (p[0], q(p[1])) for p in t["pinned"]]
+        return L
     t = next((t for t in tables["struct_tables"] if t["name"] == name), None)
     if t is None:
         return ["no-such-table"]
@@ -239,6 +548,74 @@ def check_struct_trace(lines):
     return out
 
 
+# configuration table (generated) -> kind of the `cfg` operation whose rule table (CFG_RULES) reads the same fields
+CONFIG_TABLE_KIND = {
+    "outstation/mod.rs::fn convert_outstation_config": "outstation",
+    "outstation/mod.rs::fn convert_udp_config": "udp",
+    "outstation/mod.rs::From<ffi::EventBufferConfig> for EventBufferConfig": "eventbuffer",
+    "outstation/mod.rs::From<ffi::ClassZeroConfig> for ClassZeroConfig": "classzero",
+    "outstation/mod.rs::From<ffi::OutstationFeatures> for Features": "features",
+    "master/functions.rs::TryFrom<ffi::AssociationConfig> for AssociationConfig": "association",
+    "master/functions.rs::TryFrom<ffi::MasterChannelConfig> for MasterChannelConfig": "channel",
+    "master/functions.rs::From<ffi::RetryStrategy> for RetryStrategy": "retry",
+    "master/functions.rs::From<ffi::ConnectStrategy> for ConnectStrategy": "connect",
+    "master/functions.rs::From<ffi::FileReadConfig> for FileReadConfig": "fileread",
+    "master/functions.rs::From<ffi::DirReadConfig> for DirReadConfig": "dirread",
+    "master/functions.rs::From<ffi::SerialSettings> for SerialSettings": "serial",
+}
+# wrapper (what the source does to the accessor) -> the documented readings (CFG_RULES) it implements
+WRAP_RULES = {
+    "id": {"id", "ms"}, "usize": {"id"}, "some": {"some"}, "some-usize": {"some"}, "into": {"id"}, "match": {"id"},
+    "endpoint-address": {"address"}, "buffer-size": {"buf>=249", "buf>=2048"}, "timeout": {"timeout"},
+    "zero-none": {"ms0none", "s0none"}, "fn:convert_event_classes": {"id"}, "fn:convert_classes": {"id"},
+    "fn:convert_auto_time_sync": {"none-is-none"}, "fn:to_feature": {"id"}, "ctor:RetryStrategy": {"ms"},
+    "parse-str": {"sockaddr"},
+}
+
+
+def _nrm(s):
+    return s.replace("_", "").lower()
+
+
+def check_config_trace(lines, name):
+    """config_row_ok / config_table_ok of coq/Ffi/FfiModel.v re-implemented on the trace, plus: the
+    wrapper of a field implements the documented reading the `cfg` oracle uses for that field"""
+    where = lines[0].split(" ")[1] if lines and lines[0].startswith("where ") else "?"
+    vocab = next((l.split(" ")[1:] for l in lines if l.startswith("vocabulary ")), [])
+    aliases = {tuple(l.split(" ")[1:3]) for l in lines if l.startswith("alias ")}
+    pins = {l.split(" ")[1]: urllib.parse.unquote(l.split(" ")[2]) for l in lines if l.startswith("pin ")}
+    kind = CONFIG_TABLE_KIND.get(name)
+    out, seen = [], []
+    if kind is None:
+        out.append(("config-kind", "-", "%s: configuration table without a `cfg` kind in CONFIG_TABLE_KIND: its fields are not exercised" % where))
+    for l in lines:
+        if not l.startswith("row "):
+            continue
+        f, acc, w, text = [urllib.parse.unquote(x) if x != "-" else "" for x in l.split(" ")[1:5]]
+        if f in seen:
+            out.append(("wellformed", f, "%s: configuration field `%s` assigned twice" % (where, f)))
+        seen.append(f)
+        if acc != f and (f, acc) not in aliases:
+            out.append(("config-namesake", f, "%s: configuration field `%s` is fed by the accessor `%s`, not by its namesake" % (where, f, acc)))
+        if w not in vocab:
+            out.append(("config-wrapper", f, "%s: configuration field `%s` is computed as `%s`, which is not in the wrapper vocabulary "
+                        "(reviewed wrapper of this field: %s)" % (where, f, text, pins.get(f, "none"))))
+        elif pins.get(f) != w:
+            out.append(("config-wrapper", f, "%s: configuration field `%s` is computed as `%s` (wrapper %s), the reviewed wrapper is %s"
+                        % (where, f, text, w, pins.get(f, "missing in ffi_fallbacks.json config_wrappers"))))
+        if kind and w in WRAP_RULES:
+            rules = {r[2] for r in CFG_RULES[kind] if _nrm(r[0]) == f or _nrm(r[0]).startswith(f + ".")}
+            if not rules:
+                out.append(("config-untested", f, "%s: configuration field `%s` has no rule in CFG_RULES[%s]: not exercised" % (where, f, kind)))
+            elif not rules <= WRAP_RULES[w]:
+                out.append(("config-rule", f, "%s: configuration field `%s` has the wrapper %s, the documented reading used by the cfg oracle is %s"
+                            % (where, f, w, "/".join(sorted(rules)))))
+    for f in pins:
+        if f not in seen:
+            out.append(("stale-pin", f, "%s: reviewed wrapper for `%s`, which is not a field of this conversion" % (where, f)))
+    return out
+
+
 # ------------------------------------------------------------------------------------------------
 
 def c20_run_cases(prop, cases, tag):
@@ -279,17 +656,29 @@ class C20(Prop):
     proof_targets = ["Ffi/FfiProofs.vo"]
     property_file = "Properties/C20.v"
     theorems = []  # filled from Properties/C20.v by check
-    modelled = ("regenerated from source on every run: every enum / struct conversion of ffi/dnp3-ffi/src "
+    modelled = ("regenerated from source on every run: every enum / struct conversion of ffi/dnp3-ffi/src, and for the "
+                "configuration conversions the (native field, accessor, wrapper) rows with their reviewed wrappers "
                 "(tools/gen/gen_ffi.py, pins in ffi_fallbacks.json, hash-pinned skip list ffi_skipped.json); "
                 "database operations through the binding are NOT modelled in Coq: decided by correspondence of "
                 "dnp3_database_* (C ABI) against the native Database API in /verif/harness_ffi (hook H4); "
                 "static/event variations of a point configuration are not observable through Database::get "
-                "(covered by the tables only)")
+                "(covered by the tables only); configuration conversions (OutstationConfig, AssociationConfig, "
+                "MasterChannelConfig, retry/connect strategies, event buffer / class zero / features, link id, file and "
+                "directory read, UTC time stamp, serial settings, UDP outstation) are executed on boundary values and "
+                "compared field by field with the documented reading of each field (CFG_RULES in tools/props/c20.py, "
+                "written from the doc strings of ffi/dnp3-schema/src by hand: trusted); TLS configurations need "
+                "certificate files and are not exercised; link_id_config's clamp of max_tasks to >= 1 and saturation of "
+                "timeout into 1 ms..1 h are accepted although the schema does not document them")
     rule = ("(a) one case per generated conversion table, its rules re-evaluated in Python; (b) random lists of "
             "add/update/update2/update_flags/get/remove over the eight point types with flags, time stamps of the "
             "three qualities, update options, event classes, variations and dead bands, small event buffers so "
             "that Overflow occurs; each op executed through the C functions and natively on twin databases; a "
-            "script is non-trivial when an operation created an event or added a point; distinct = distinct trace")
+            "script is non-trivial when an operation created an event or added a point; distinct = distinct trace; "
+            "(c) `cfg` operations: the binding's raw configuration structs filled with every numeric field at its "
+            "minimum, minimum+1, a typical value, its maximum and a random value (Latin square over the fields), boolean "
+            "masks binary-coded by field position, one field at a time outside its documented range; each native "
+            "field must equal its namesake binding field under the rule table, an out-of-range field must be refused "
+            "with the ParamError of its rule")
     extra_assumptions = ["trusted for the database part: /verif/harness_ffi (by-name pairing of binding and native "
                          "enum values in the harness), oo-bindgen's generated C shims, tokio runtime that is never driven"]
 
@@ -387,6 +776,72 @@ class C20(Prop):
         return Case(sid, script_text(sid, "ffi", cfg, ops),
                     {"impl_only": True, "kind": "db-" + "+".join(sorted(set(types))), "nops": len(ops)})
 
+    # ---- configuration conversions (operation `cfg`) -------------------------------------------
+
+    def gen_cfg_value(self, rng, ty, i, k, nsweep, bool_ix, nbits):
+        """value of field number i (type ty) in valid sweep number k: a Latin square over the pool
+        [min, min+1, typical, max, random] so that nsweep >= 5 operations put every field at every
+        boundary; sweep 5 gives every field its own typical value (crossed fields show)"""
+        t = ty[0]
+        if t == "bool":
+            return str((bool_ix >> k) & 1) if k < nbits else str(rng.below(2))
+        if t == "enum":
+            return ty[1][(i + k) % len(ty[1])]
+        pool, _ = cfg_pools(ty, rng)
+        if t == "sockaddr":
+            return pool[(i + k) % len(pool)]
+        if k == 5:
+            return str(pool[2] + i)
+        if k > 5:
+            return str(rng.choice(pool))
+        order = [0, 3, 2, 1, 4]
+        return str(pool[order[(i + k) % min(nsweep, 5)]])
+
+    def gen_cfg_ops(self, rng, kind, nsweep, ninvalid, nrandom=0):
+        fields = CFG_FIELDS[kind]
+        bools = [f for f, ty in fields if ty[0] == "bool"]
+        nbits = max(1, (len(bools) - 1).bit_length())
+        ops = []
+        for k in range(nsweep):
+            ops.append(["cfg", kind] + ["%s=%s" % (f, self.gen_cfg_value(rng, ty, i, k, nsweep, bools.index(f) if f in bools else 0, nbits))
+                                        for i, (f, ty) in enumerate(fields)])
+        probes = [(f, v) for f, ty in fields if ty[0] not in ("bool", "enum") for v in cfg_pools(ty, rng)[1]]
+        if ninvalid is not None:
+            rng.shuffle(probes)
+            probes = probes[:ninvalid]
+        # one field outside its documented range, every other field at the harness's (valid) base value
+        ops += [["cfg", kind, "%s=%s" % (f, v)] for f, v in probes]
+        for _ in range(nrandom):
+            op = ["cfg", kind]
+            bad = rng.below(3) if rng.chance(1, 5) else 0
+            for f, ty in fields:
+                if ty[0] == "bool":
+                    v = rng.below(2)
+                elif ty[0] == "enum":
+                    v = rng.choice(ty[1])
+                else:
+                    pool, inv = cfg_pools(ty, rng)
+                    v = rng.choice(inv) if bad and inv and rng.chance(1, 4) else rng.choice(pool)
+                op.append("%s=%s" % (f, v))
+            ops.append(op)
+        return ops
+
+    def cfg_cases(self, rng, tier):
+        out = []
+        if tier == "quick":
+            plan = [(name, [(k, a, b, 0) for k, a, b in parts]) for name, parts in CFG_QUICK]
+        else:
+            plan = [("%s_%d" % (kind, j), [(kind, 8 if j == 0 else 0, None if j == 0 else 0, 50)])
+                    for kind in sorted(CFG_FIELDS) for j in range(4)]
+        for name, parts in plan:
+            ops = []
+            for kind, nsweep, ninvalid, nrandom in parts:
+                ops += self.gen_cfg_ops(rng, kind, nsweep, ninvalid, nrandom)
+            sid = "c20_cfg_%s" % name
+            out.append(Case(sid, script_text(sid, "ffi", {}, ops),
+                            {"impl_only": True, "kind": "cfg-" + "+".join(sorted({o[1] for o in ops})), "nops": len(ops)}))
+        return out
+
     def table_cases(self):
         tables = load_tables()
         if tables is None or self.translator_failed():
@@ -400,6 +855,10 @@ class C20(Prop):
             sid = "c20_struct_%d" % i
             out.append(Case(sid, "S %s ffitable kind=struct\ntable %s\nE" % (sid, q(t["name"])),
                             {"impl_only": True, "kind": "table-struct", "table": t["name"], "file": t["file"], "line": t["line"]}))
+        for i, t in enumerate(tables.get("config_tables", [])):
+            sid = "c20_config_%d" % i
+            out.append(Case(sid, "S %s ffitable kind=config\ntable %s\nE" % (sid, q(t["name"])),
+                            {"impl_only": True, "kind": "table-config", "table": t["name"], "file": t["file"], "line": t["line"]}))
         return out
 
     def cases(self, rng, tier):
@@ -411,7 +870,7 @@ class C20(Prop):
                     os.remove(os.path.join(d, f))
         n = 240 if tier == "quick" else 4000
         db = [self.gen_script(rng, "c20_db_%d" % i) for i in range(n)]
-        return db[:2] + self.table_cases() + db[2:]
+        return db[:2] + self.cfg_cases(rng, tier) + self.table_cases() + db[2:]
 
     # ---- oracle ----------------------------------------------------------------------------
 
@@ -423,7 +882,7 @@ class C20(Prop):
                 return [("table-missing", "table %s is not among the generated tables (%s)" % (case.meta.get("table"), impl[0]))]
             kind = [t.split("=", 1)[1] for t in head[3:] if t.startswith("kind=")][0]
             name = urllib.parse.unquote(case.script.split("\n")[1].split(" ", 1)[1])
-            res = check_enum_trace(impl) if kind == "enum" else check_struct_trace(impl)
+            res = check_enum_trace(impl) if kind == "enum" else check_config_trace(impl, name) if kind == "config" else check_struct_trace(impl)
             for clause, key, text in res:
                 fails.append(("%s|%s|%s" % (clause, name, key), "%s [%s]" % (text, name)))
             return fails
@@ -440,6 +899,14 @@ class C20(Prop):
             if not f.startswith("ffi ") or not n.startswith("native "):
                 fails.append(("harness|format", "lines out of order: %s / %s" % (f[:80], n[:80])))
                 break
+            if f.startswith("ffi cfg "):
+                # configuration conversion: native fields against their namesake binding fields (CFG_RULES)
+                res = check_cfg(case.script.split("\n")[1 + i // 2], f, n) if n.startswith("native cfg ") else \
+                    [("harness|format", "lines out of order: %s / %s" % (f[:80], n[:80]))]
+                if res:
+                    fails += res
+                    break
+                continue
             if f[4:] != n[7:]:
                 t = f.split(" ")
                 fails.append(("ffi-native-differ|%s" % t[1],
@@ -450,7 +917,9 @@ class C20(Prop):
 
     def nontrivial(self, case, impl):
         if case.meta.get("kind", "").startswith("table"):
-            return any(l.startswith("arm ") or l.startswith("field ") for l in impl)
+            return any(l.startswith("arm ") or l.startswith("field ") or l.startswith("row ") for l in impl)
+        if case.meta.get("kind", "").startswith("cfg"):
+            return any(l.startswith("native cfg ") and " ret=ok " in l for l in impl)
         return any(("ret=created" in l or "ret=overflow" in l or (l.startswith("native add") and "ret=true" in l)) for l in impl)
 
     def finding_signature(self, case, clause, desc):
